@@ -138,10 +138,10 @@ func (c *GoldilocksChip) ConstantLayerExtension(state GoldilocksStateExtension, 
 func (c *GoldilocksChip) sBoxMonomial(x gl.Variable) gl.Variable {
 	x2 := c.Gl.MulNoReduce(x, x)
 	x3 := c.Gl.MulNoReduce(x, x2)
-	x3 = c.Gl.ReduceWithMaxBits(x3, 192)
+	x3 = c.Gl.ReduceWithMaxBits(x3, 128)
 	x6 := c.Gl.MulNoReduce(x3, x3)
 	x7 := c.Gl.MulNoReduce(x, x6)
-	return c.Gl.ReduceWithMaxBits(x7, 192)
+	return c.Gl.ReduceWithMaxBits(x7, 128)
 }
 
 func (c *GoldilocksChip) SBoxMonomialExtension(x gl.QuadraticExtensionVariable) gl.QuadraticExtensionVariable {
